@@ -420,7 +420,7 @@ NUM_SPELL = [lambda v: repr(float(v)), lambda v: (str(int(v)) if float(v).is_int
 def loader_cases(tier):
     ns = [1, 2, 3, 4] if tier == "quick" else [1, 2, 3, 4, 5, 80]
     cases = []
-    for kind in ("tlt-sorted", "tlt-unsorted", "tlt-repeated", "dose", "ctffind4", "gctf", "gctf-phase", "gctf-extra", "gctf-reordered", "mdoc-dose-prior", "array"):
+    for kind in ("tlt-sorted", "tlt-unsorted", "tlt-repeated", "dose", "ctffind4", "gctf", "gctf-phase", "gctf-extra", "gctf-reordered", "mdoc-dose-prior", "array", "dose-csv", "dose-csv-removed"):
         for n in ns:
             for spell in range(len(NUM_SPELL)):
                 for nl in (True, False):
@@ -453,6 +453,24 @@ def exec_loader(case, obs):
     sp = NUM_SPELL[spell]
     end = "\n" if nl else ""
     obs.nontrivial = n >= 2
+    if kind in ("dose-csv", "dose-csv-removed"):
+        # the csv table of a pre-processing log: first column = acquisition number (dose-symmetric scheme: NOT ascending in
+        # tilt order), CorrectedDose per image, optionally a Removed flag; the doses come back in FILE order, removed rows left out
+        vals = values(n, seed, 1.5, 3.0)[::-1]
+        acq = [(7 * i + 3) % n for i in range(n)] if n > 1 else [0]
+        if len(set(acq)) != n:
+            acq = list(range(n - 1, -1, -1))
+        removed = [(i % 3 == 1) for i in range(n)] if kind.endswith("removed") else None
+        with open("d.csv", "w") as f:
+            f.write(",TiltAngle,CorrectedDose" + (",Removed" if removed else "") + "\n")
+            for i, v in enumerate(vals):
+                f.write(f"{acq[i]},{-30.0 + 3.0 * i},{sp(v).strip()}" + (f",{removed[i]}" if removed else "") + "\n")
+        got = obs.lib("total_dose_load", ioutils.total_dose_load, os.path.abspath("d.csv"))
+        want = [float(sp(v)) for i, v in enumerate(vals) if not (removed and removed[i])]
+        obs.check(len(np.atleast_1d(got)) == len(want) and np.allclose(np.asarray(got, dtype=float), np.float32(want), rtol=1e-6, atol=0), "total_dose_load",
+                  "dose-values-in-file-order", lambda: f"{got} vs {want}", cls="csv-file")
+        obs.outcome = tuple(np.asarray(got, dtype=float).round(4).tolist())
+        return
     if kind in ("tlt-sorted", "tlt-unsorted", "tlt-repeated", "dose"):
         vals = values(n, seed, -30.0, 7.5) if kind != "dose" else values(n, seed, 1.5, 3.0)
         if kind == "tlt-unsorted":
